@@ -258,6 +258,40 @@ def run_f18_witness(report):
             return
 
 
+F24_WITNESS = ('<svg xmlns="http://www.w3.org/2000/svg" viewBox="0 0 128 128"><path d="M60,60 L62.4,60 L62.4,62.4 L60,62.4 Z" fill="red"/>'
+               '<path d="M40,40 L88,40 L88,88 L40,88 Z" fill="blue"/></svg>')
+
+
+def run_f24_witness(report):
+    """a tiny shape first, its 20x copy later: the copy is drawn from the tiny outline as stored (whole font units).
+    Judged strictly: reuse tolerance (in font units) plus one unit of quantisation, without the allowance the generic
+    oracle makes for a stored outline's rounding seen through the reuse scale."""
+    srcs = [(build.filename_for((0x1F600,)), F24_WITNESS, (0x1F600,))]
+    boxes = {}
+    for tol in (0.1, -1.0):
+        try:
+            font, cfg, picos, _ = build.build_inprocess(dict(color_format="glyf_colr_1", reuse_tolerance=tol), srcs)
+        except Exception as ex:
+            report_failure(report, "tiny_donor_build", dict(kind="e2e", reuse_tolerance=tol, error=repr(ex), sources=[F24_WITNESS]))
+            return
+        pic, probs = glyph_picture(font, e2e.glyph_for(font, (0x1F600,)))
+        items = [it for it, _ in picture.flatten(pic)]
+        if probs or len(items) != 2:
+            report_failure(report, "tiny_donor_layers", dict(kind="e2e", reuse_tolerance=tol, problems=probs, layers=len(items), sources=[F24_WITNESS]))
+            return
+        boxes[tol] = (picture.polys_bbox(items[1][1]), items[1][4] if len(items[1]) > 4 else 1.0)
+    report.count(("f24-witness",), True)
+    (b_on, scale), (b_off, _) = boxes[0.1], boxes[-1.0]
+    worst = max(abs(a - b) for a, b in zip(b_on, b_off))
+    unit = 1200 / 128  # font units per source unit at the default metrics
+    if worst > 0.1 * unit + 1.0:
+        magnified_rounding = scale > 1.5 and worst <= 0.5 * scale + 0.1 * unit + 1.0
+        report_failure(report, "tiny_donor", dict(kind="e2e-pair", format="glyf_colr_1", reuse_tolerance=0.1, sources=[F24_WITNESS], reuse_scale=scale,
+                                                  bounds_with_reuse=list(b_on), bounds_without_reuse=list(b_off), worst_edge_difference=worst,
+                                                  problem="a layer drawn through a reuse transform is displaced by more than tolerance + quantisation"),
+                       "F24-stored-donor-rounding-magnified" if magnified_rounding else None)
+
+
 def main(argv):
     common.setup_env()
     tier = common.tier_from_args(argv)
@@ -275,6 +309,7 @@ def main(argv):
         run_cache(report, 120 if tier == "quick" else 2500, rng)
     run_pairs(report, 16 if tier == "quick" else 400, rng)
     run_f18_witness(report)
+    run_f24_witness(report)
     if not st["proof_ok"] and not report.violations:
         report.violation("proof", dict(kind="proof", theorem="Props/C06.v", detail=report.notes.get("proof_failure")), found_input=False)
     report.open_obligations = [
